@@ -10115,3 +10115,307 @@ func ruleGCAtomic(c *Ctx) {
 		c.OK("gc-atomic", c.P.Pos(fd.Decl.Pos()), "walk, decision and deletes of SeekGC happen under one hold of the write lock")
 	}
 }
+
+// ruleSlotStoreReleases (C12): STLOC/STARG/STSFLD move an item from the evaluation stack into a slot. The item keeps
+// the count it had on the stack (popNoRef), which now stands for the slot's reference; what the slot held before
+// loses its reference, on every path - also when it is the very same item (it was counted once for the slot and once
+// for the stack; one of the two goes). A path from the pop to a normal exit that skips refCounter.Remove leaves the
+// counter one too high for good, and the 2048-item limit fires on scripts that hold a handful of items.
+func ruleSlotStoreReleases(c *Ctx) {
+	fd := c.P.Func("pkg/vm", "Slot", "store")
+	if fd == nil {
+		c.Lost("slot-store-releases.anchor", "vm.Slot.store not found")
+		return
+	}
+	f := c.P.NewFuncCFG(fd)
+	pops := f.CallSites("pkg/vm.(*Stack).popNoRef")
+	rems := f.CallSites("pkg/vm.(*refCounter).Remove")
+	if len(pops) == 0 {
+		c.Lost("slot-store-releases.pop", "Slot.store no longer takes the item with popNoRef")
+		return
+	}
+	from := []*cfg.Block{}
+	for _, p := range pops {
+		from = append(from, p.blk)
+	}
+	var exits []site
+	for _, s := range f.OKReturns() {
+		// exits that lie after the pop (same block later, or reachable)
+		exits = append(exits, s)
+	}
+	// only exits reachable from the pop count
+	r := f.reach(from, nil, nil)
+	var after []site
+	for _, s := range exits {
+		if _, ok := r[s.blk]; ok {
+			if s.blk == pops[0].blk && s.idx <= pops[0].idx {
+				continue
+			}
+			after = append(after, s)
+		}
+	}
+	ok, path := f.mustBefore(from, after, rems, nil)
+	if ok && len(rems) > 0 {
+		c.OK("slot-store-releases", c.P.Pos(fd.Decl.Pos()), fmt.Sprintf("every exit of Slot.store behind the pop (%d) passes refCounter.Remove of the previous content", len(after)))
+	} else {
+		c.Fail("slot-store-releases", c.P.Pos(fd.Decl.Pos()), "Slot.store has a way from popNoRef to a normal exit that does not release what the slot held ("+strings.Join(path, " -> ")+"): the popped item came with the count of its stack reference, and when nothing is released for it the VM's reference counter stays one too high for ever - a loop that loads a local and stores it back faults with 'stack is too big' while it holds a single item")
+	}
+}
+
+// ruleGoroutinePanicFree (C12): the VM turns a panic raised while an instruction executes into a FAULT - in the
+// goroutine that executes. A goroutine the VM starts itself (the workers of the parallel multisignature check) is
+// outside that recover: a panic there ends the process. What such a goroutine calls must not be able to panic on
+// data from the script: decoding a public key (bytesToPublicKey panics on a malformed one) belongs into the calling
+// goroutine, the workers get decoded keys. No function of package vm that contains a panic is called from the body
+// of a function started with `go` in package vm.
+func ruleGoroutinePanicFree(c *Ctx) {
+	pk := c.P.Pkg("pkg/vm")
+	if pk == nil {
+		return
+	}
+	info := pk.TypesInfo
+	panics := map[*types.Func]bool{}
+	for _, fd := range c.P.AllFuncDecls() {
+		if fd.Pkg != pk || fd.Decl.Body == nil {
+			continue
+		}
+		inspectNoLit(fd.Decl.Body, func(x ast.Node) bool {
+			if call, ok := x.(*ast.CallExpr); ok {
+				if id, ok := call.Fun.(*ast.Ident); ok && id.Name == "panic" {
+					if _, isB := info.ObjectOf(id).(*types.Builtin); isB {
+						panics[fd.Obj] = true
+					}
+				}
+			}
+			return true
+		})
+	}
+	n := 0
+	for _, fd := range c.P.AllFuncDecls() {
+		if fd.Pkg != pk || fd.Decl.Body == nil {
+			continue
+		}
+		f := c.P.NewFuncCFG(fd)
+		ast.Inspect(fd.Decl.Body, func(x ast.Node) bool {
+			gs, ok := x.(*ast.GoStmt)
+			if !ok {
+				return true
+			}
+			var body ast.Node
+			switch fun := ast.Unparen(gs.Call.Fun).(type) {
+			case *ast.FuncLit:
+				body = fun.Body
+			case *ast.Ident:
+				if v, ok := info.ObjectOf(fun).(*types.Var); ok && len(f.defs[v]) == 1 && len(f.defs[v][0].rhs) == 1 {
+					if lit, ok := ast.Unparen(f.defs[v][0].rhs[0]).(*ast.FuncLit); ok {
+						body = lit.Body
+					}
+				} else if fn, ok := info.ObjectOf(fun).(*types.Func); ok {
+					if d := c.P.DeclOf(fn); d != nil {
+						body = d.Decl.Body
+					}
+				}
+			}
+			if body == nil {
+				return true
+			}
+			n++
+			key := fmt.Sprintf("%s.go#%d", shortSym(FuncKey(fd.Obj)), n)
+			bad := ""
+			ast.Inspect(body, func(y ast.Node) bool {
+				if call, ok := y.(*ast.CallExpr); ok {
+					if fn := calleeFunc(info, call); fn != nil && panics[fn] {
+						bad = shortSym(FuncKey(fn))
+					}
+					if id, ok := call.Fun.(*ast.Ident); ok && id.Name == "panic" {
+						if _, isB := info.ObjectOf(id).(*types.Builtin); isB {
+							bad = "panic"
+						}
+					}
+				}
+				return true
+			})
+			if bad == "" {
+				c.OK(key, c.P.Pos(gs.Pos()), "nothing the goroutine calls in package vm can panic")
+			} else {
+				c.Fail(key, c.P.Pos(gs.Pos()), fmt.Sprintf("%s starts a goroutine whose body calls %s, which panics on bad input: the recover that turns a panic into a FAULT is in the goroutine that executes the instruction, not in this one - a witness with a malformed public key and two signatures ends the process instead of faulting", FuncKey(fd.Obj), bad))
+			}
+			return true
+		})
+	}
+	c.Floor("goroutines started by package vm", n, 1)
+}
+
+// ruleSlotInitOnce (C13, C12): a context gets its local and argument slots once. INITSLOT creates up to two slots,
+// each under its own count; the per-slot constructors refuse a slot that exists, which catches the second INITSLOT
+// only if it asks for the same slot again. `INITSLOT 1,0; INITSLOT 0,1` passes both constructors - the reference
+// faults on the second instruction. An arm of execute that can initialise more than one slot field of the context
+// starts with a rejecting test that mentions every one of them.
+func ruleSlotInitOnce(c *Ctx) {
+	fd := c.P.Func("pkg/vm", "VM", "execute")
+	if fd == nil {
+		return
+	}
+	info := fd.Pkg.TypesInfo
+	n := 0
+	ast.Inspect(fd.Decl.Body, func(x ast.Node) bool {
+		cc, ok := x.(*ast.CaseClause)
+		if !ok || len(cc.List) == 0 {
+			return true
+		}
+		// slot fields initialised in this arm: <ctx...>.F.init(...) / .initFromStack(...)
+		fields := map[string]bool{}
+		var firstInit token.Pos
+		for _, st := range cc.Body {
+			ast.Inspect(st, func(y ast.Node) bool {
+				call, ok := y.(*ast.CallExpr)
+				if !ok {
+					return true
+				}
+				se, ok := ast.Unparen(call.Fun).(*ast.SelectorExpr)
+				if !ok || !strings.HasPrefix(se.Sel.Name, "init") {
+					return true
+				}
+				if !namedTypeIs(info.TypeOf(se.X), "pkg/vm", "Slot") {
+					return true
+				}
+				if fs, ok := ast.Unparen(se.X).(*ast.SelectorExpr); ok {
+					fields[fs.Sel.Name] = true
+					if firstInit == token.NoPos {
+						firstInit = call.Pos()
+					}
+				}
+				return true
+			})
+		}
+		if len(fields) < 2 {
+			return true
+		}
+		n++
+		name := types.ExprString(cc.List[0])
+		// a rejecting if before the first init that mentions all the fields
+		guarded := false
+		for _, st := range cc.Body {
+			is, ok := st.(*ast.IfStmt)
+			if !ok || is.Pos() > firstInit {
+				continue
+			}
+			rejects := false
+			ast.Inspect(is.Body, func(y ast.Node) bool {
+				if call, ok := y.(*ast.CallExpr); ok {
+					if id, ok := call.Fun.(*ast.Ident); ok && id.Name == "panic" {
+						rejects = true
+					}
+				}
+				return true
+			})
+			if !rejects {
+				continue
+			}
+			all := true
+			for fl := range fields {
+				found := false
+				ast.Inspect(is.Cond, func(y ast.Node) bool {
+					if se, ok := y.(*ast.SelectorExpr); ok && se.Sel.Name == fl {
+						found = true
+					}
+					return true
+				})
+				if !found {
+					all = false
+				}
+			}
+			if all {
+				guarded = true
+			}
+		}
+		var fl []string
+		for k := range fields {
+			fl = append(fl, k)
+		}
+		sort.Strings(fl)
+		key := "slot-init-once." + name
+		if guarded {
+			c.OK(key, c.P.Pos(cc.Pos()), "the arm refuses a context that has any of "+strings.Join(fl, ", ")+" already")
+		} else {
+			c.Fail(key, c.P.Pos(cc.Pos()), fmt.Sprintf("the %s arm of execute can create the slots %s, each under its own count, and does not start by refusing a context that already has one of them: the constructors of the slots only refuse the slot they are asked to create again, so `INITSLOT 1,0; INITSLOT 0,1` initialises a context twice where the reference faults", name, strings.Join(fl, ", ")))
+		}
+		return true
+	})
+	c.Floor("arms of execute that create more than one slot", n, 1)
+}
+
+// ruleJumpLandsInside (C13, C12): a jump that is performed lands on an instruction: its target is below the length
+// of the script. (The *computed* offset of an instruction may equal the length - CalcJumpOffset allows it, an untaken
+// branch may point there.) Context.Jump is where every performed jump, call, and handler dispatch sets the next
+// instruction pointer; the comparison of the target with len(prog) there rejects equality.
+func ruleJumpLandsInside(c *Ctx) {
+	fd := c.P.Func("pkg/smartcontract/scparser", "Context", "Jump")
+	if fd == nil {
+		c.Lost("jump-lands-inside.anchor", "scparser.Context.Jump not found")
+		return
+	}
+	f := c.P.NewFuncCFG(fd)
+	info := f.Info
+	if fd.Decl.Type.Params == nil || len(fd.Decl.Type.Params.List) == 0 || len(fd.Decl.Type.Params.List[0].Names) == 0 {
+		c.Lost("jump-lands-inside.param", "Jump has no named parameter")
+		return
+	}
+	pos := info.ObjectOf(fd.Decl.Type.Params.List[0].Names[0])
+	flip := map[token.Token]token.Token{token.LSS: token.GTR, token.GTR: token.LSS, token.LEQ: token.GEQ, token.GEQ: token.LEQ, token.EQL: token.EQL, token.NEQ: token.NEQ}
+	found, rejectsEq := false, false
+	ast.Inspect(fd.Decl.Body, func(x ast.Node) bool {
+		is, ok := x.(*ast.IfStmt)
+		if !ok {
+			return true
+		}
+		panics := false
+		ast.Inspect(is.Body, func(y ast.Node) bool {
+			if call, ok := y.(*ast.CallExpr); ok {
+				if id, ok := call.Fun.(*ast.Ident); ok && id.Name == "panic" {
+					panics = true
+				}
+			}
+			return true
+		})
+		if !panics {
+			return true
+		}
+		ast.Inspect(is.Cond, func(y ast.Node) bool {
+			be, ok := y.(*ast.BinaryExpr)
+			if !ok {
+				return true
+			}
+			isPos := func(e ast.Expr) bool {
+				id, ok := ast.Unparen(e).(*ast.Ident)
+				return ok && info.ObjectOf(id) == pos
+			}
+			isLen := func(e ast.Expr) bool {
+				call, ok := ast.Unparen(e).(*ast.CallExpr)
+				return ok && f.calleeSym(call) == "builtin.len"
+			}
+			op := be.Op
+			switch {
+			case isPos(be.X) && isLen(be.Y):
+			case isLen(be.X) && isPos(be.Y):
+				op = flip[op]
+			default:
+				return true
+			}
+			found = true
+			if op == token.GEQ || op == token.EQL {
+				rejectsEq = true
+			}
+			return true
+		})
+		return true
+	})
+	switch {
+	case !found:
+		c.Lost("jump-lands-inside.shape", "Context.Jump no longer compares its target with the length of the script in a rejecting test")
+	case rejectsEq:
+		c.OK("jump-lands-inside", c.P.Pos(fd.Decl.Pos()), "a performed jump to the end of the script is refused")
+	default:
+		c.Fail("jump-lands-inside", c.P.Pos(fd.Decl.Pos()), "Context.Jump accepts a target equal to the length of the script: a jump that is actually taken to the position just behind the last instruction becomes an implicit RET and the script halts, where the reference faults (`PUSH7; JMP +2` gives [7]); the same goes for every CALL, ENDTRY and handler dispatch, which all set the instruction pointer here")
+	}
+}
